@@ -553,3 +553,136 @@ pub mod readable_app {
         ]
     }
 }
+
+// --- apps that differ only in the position of skipped capabilities ------------------------------
+//
+// `Lookup` has a struct operation and an output type that neither the event nor the view model
+// mentions, so the output reaches the schema only through `Operation::register_types`, which
+// the `Export` derive calls per capability field. Where an `#[effect(skip)]` field sits among
+// the fields must not matter.
+
+pub mod position_apps {
+    pub mod common {
+        pub use crux_core::compose::Compose;
+        pub use crux_core::macros::{Effect, Export};
+        pub use crux_core::render::{render, Render, RenderOperation};
+        pub use crux_core::{Command, Request};
+        use crux_core::capability::{CapabilityContext, Operation};
+        use crux_core::macros::Capability;
+        use serde::{Deserialize, Serialize};
+
+        #[derive(Clone, Debug, PartialEq, Eq, Serialize, Deserialize)]
+        pub struct LookupRequest {
+            pub key: String,
+        }
+
+        #[derive(Clone, Debug, PartialEq, Eq, Serialize, Deserialize)]
+        pub struct LookupResponse {
+            pub found: bool,
+            pub hits: Vec<u32>,
+        }
+
+        impl Operation for LookupRequest {
+            type Output = LookupResponse;
+        }
+
+        #[derive(Capability)]
+        pub struct Lookup<Ev> {
+            #[allow(dead_code)]
+            context: CapabilityContext<LookupRequest, Ev>,
+        }
+
+        impl<Ev> Lookup<Ev> {
+            pub fn new(context: CapabilityContext<LookupRequest, Ev>) -> Self {
+                Self { context }
+            }
+        }
+
+        #[derive(Serialize, Deserialize, Debug)]
+        pub enum Event {
+            Find(String),
+            // the answer stays inside the core; skipped variants last
+            #[serde(skip)]
+            Found(LookupResponse),
+        }
+
+        #[derive(Default)]
+        pub struct Model {
+            pub answered: bool,
+            pub found: bool,
+            pub hits: Vec<u32>,
+        }
+
+        #[derive(Serialize, Deserialize, Debug)]
+        pub struct ViewModel {
+            pub answered: bool,
+            pub found: bool,
+            pub hits: Vec<u32>,
+        }
+
+        pub fn update<Ef>(event: Event, model: &mut Model) -> Command<Ef, Event>
+        where
+            Ef: From<Request<LookupRequest>> + From<Request<RenderOperation>> + Send + 'static,
+        {
+            match event {
+                Event::Find(key) => Command::request_from_shell(LookupRequest { key }).then_send(Event::Found),
+                Event::Found(r) => {
+                    model.answered = true;
+                    model.found = r.found;
+                    model.hits = r.hits;
+                    render()
+                }
+            }
+        }
+
+        pub fn view(model: &Model) -> ViewModel {
+            ViewModel { answered: model.answered, found: model.found, hits: model.hits.clone() }
+        }
+    }
+
+    macro_rules! position_app {
+        ($m:ident: $( $(#[$a:meta])* $f:ident : $cap:ident < $ev:ident > ),+ $(,)?) => {
+            pub mod $m {
+                use super::common::*;
+
+                #[derive(Effect, Export)]
+                #[allow(dead_code)]
+                pub struct Capabilities {
+                    $( $(#[$a])* pub $f: $cap<$ev>, )+
+                }
+
+                #[derive(Default)]
+                pub struct App;
+
+                impl crux_core::App for App {
+                    type Event = Event;
+                    type Model = Model;
+                    type ViewModel = ViewModel;
+                    type Capabilities = Capabilities;
+                    type Effect = Effect;
+
+                    fn update(&self, event: Event, model: &mut Model, _caps: &Capabilities) -> Command<Effect, Event> {
+                        update::<Effect>(event, model)
+                    }
+
+                    fn view(&self, model: &Model) -> ViewModel {
+                        view(model)
+                    }
+                }
+            }
+        };
+    }
+
+    // all six orders of {lookup, render, skipped compose}
+    position_app!(lookup_render_skip: lookup: Lookup<Event>, render: Render<Event>, #[effect(skip)] compose: Compose<Event>);
+    position_app!(render_lookup_skip: render: Render<Event>, lookup: Lookup<Event>, #[effect(skip)] compose: Compose<Event>);
+    position_app!(lookup_skip_render: lookup: Lookup<Event>, #[effect(skip)] compose: Compose<Event>, render: Render<Event>);
+    position_app!(render_skip_lookup: render: Render<Event>, #[effect(skip)] compose: Compose<Event>, lookup: Lookup<Event>);
+    position_app!(skip_lookup_render: #[effect(skip)] compose: Compose<Event>, lookup: Lookup<Event>, render: Render<Event>);
+    position_app!(skip_render_lookup: #[effect(skip)] compose: Compose<Event>, render: Render<Event>, lookup: Lookup<Event>);
+    // two skipped fields
+    position_app!(skip_skip_lookup_render: #[effect(skip)] compose: Compose<Event>, #[effect(skip)] compose2: Compose<Event>, lookup: Lookup<Event>, render: Render<Event>);
+    position_app!(skip_lookup_skip_render: #[effect(skip)] compose: Compose<Event>, lookup: Lookup<Event>, #[effect(skip)] compose2: Compose<Event>, render: Render<Event>);
+    position_app!(render_skip_skip_lookup: render: Render<Event>, #[effect(skip)] compose: Compose<Event>, #[effect(skip)] compose2: Compose<Event>, lookup: Lookup<Event>);
+    position_app!(lookup_skip_render_skip: lookup: Lookup<Event>, #[effect(skip)] compose: Compose<Event>, render: Render<Event>, #[effect(skip)] compose2: Compose<Event>);
+}
